@@ -188,7 +188,7 @@ func Validate(e *Eff, body *hclsyntax.Body, unknown bool) []ExpDiag {
 		if bs.MaxItems > 0 && found[t] > bs.MaxItems {
 			out = append(out, ExpDiag{hcl.DiagError, "too-many", t, body.SrcRange})
 		}
-		if bs.MinItems > 0 && found[t] < bs.MinItems && !(e.Ext.DynamicBlocks && dyn[t]) {
+		if bs.MinItems > 0 && found[t] < bs.MinItems && !(e.DynFor[t] && dyn[t]) {
 			out = append(out, ExpDiag{hcl.DiagError, "too-few", t, body.SrcRange})
 		}
 	}
